@@ -67,7 +67,8 @@ fn expand(l: &str) -> &str {
     }
 }
 
-pub const HORIZON_S: u64 = 6;
+/// Only separates 'exits' from 'never exits'; generous so that a busy machine is never a verdict
+pub const HORIZON_S: u64 = 20;
 
 /// Expected output grammar for one input, checked by consuming the engine's stdout in order.
 /// Returns Err(text) on the first disagreement.
